@@ -60,6 +60,18 @@ CLAIMED = {
         note="An allocator written in a form other than the three recognised freshness arguments is reported as a violation of R1 (not fresh by any recognised argument). Uniqueness under direct user edits of gateway.sensors is outside the claim.",
         ref="DESIGN.md section 4 C06",
     ),
+    "C09": dict(
+        technique="AST layout rules (struct formats, word counts, block-size symbol uses, def-use in prepare_fw), dataflow of the packed words on all replying abstract paths of the two responders, arithmetic evaluation of the padding over all 128 residues",
+        text="Layout / dataflow clauses only: both directions use little-endian unsigned 16-bit words in hex text; the config request is unpacked into 5 words and the block request into 3; on every replying path the config response packs (type, version, blocks, crc) of the session's firmware in that order and the block response echoes the request's own type, version and block index followed by the data cut as [i*S : i*S+S] from the record; divisor, stride and width are the same block-size symbol (16); the record stores, checksums and counts the same padded value; the padding makes every length a multiple of 128 with at most one page of 0xFF for all 128 residues.",
+        note="CRC-16/MODBUS correctness (crcmod), Intel-HEX decoding (intelhex) and equality of the concatenated blocks with the image are numerical / round-trip statements and are NOT decided. If the padding is not in the recognised form the R4 clause is reported as not decided in the evidence.",
+        ref="DESIGN.md section 4 C09",
+    ),
+    "C10": dict(
+        technique="typestate extraction from all abstract paths of respond_fw_config / respond_fw / make_update (which session store is consulted, popped and written in which order), who-may-write scans for `requested` and the reboot flag, handler-path check of the stream guard",
+        text="Typestate clauses of the OTA session: nodes enter `requested` only through make_update, for a known node and existing firmware; the config responder consults (requested, unstarted) in order and moves the node to unstarted, never touching started; the block responder consults (unstarted, started), moves to started, never touching requested; a response needs a store hit and a firmware record and is a copy of the request with the response sub-type; make_update removes the node from unstarted and started before scheduling (restart) and sets the reboot flag, which only node presentation and the constructors clear; the payload parse precedes every session mutation and its failure returns None leaving the session untouched; responders run only for a known node of a stream message.",
+        note="Conformance of all interleavings to a reference automaton is not decided; out-of-range block indices are not decided. A-OTA-RANGE as in C01.",
+        ref="DESIGN.md section 4 C10",
+    ),
 }
 
 NOT_APPLICABLE = {
